@@ -323,7 +323,8 @@ def tfmodisco_rules(repo):
     role = "reported attribution is the input summed over the central window of the span"
     src = {unparse(s.targets[0]): unparse(s.value) for s in walk_no_nested(tf.node) if isinstance(s, ast.Assign) and len(s.targets) == 1}
     ok = src.get("attr_flank") == "int(0.5 * (end - start - window_size))" and \
-        src.get("(attr_start, attr_end)") == "(start + attr_flank, end - attr_flank)" and \
+        (src.get("(attr_start, attr_end)") == "(start + attr_flank, end - attr_flank)" or
+         (src.get("attr_start") == "start + attr_flank" and src.get("attr_end") == "end - attr_flank")) and \
         src.get("attr") == "X_attr[example_id, attr_start:attr_end].sum(dim=-1).item()"
     if ok:
         out.append(holds("TFM", tf, role, src.get("attr"), tf.node))
